@@ -1,6 +1,7 @@
 package main
 
 import (
+	"bytes"
 	"fmt"
 	"math"
 	"unicode/utf8"
@@ -232,16 +233,7 @@ func c10(args []string) {
 			n = 8000
 		}
 	}
-	for i := 0; i < n; i++ {
-		preserve := r.chance(1, 3)
-		var msgs []proto.Message
-		if r.chance(1, 3) {
-			msgs = r.devScenario()
-		} else {
-			for k := 0; k < 1+r.intn(3); k++ {
-				msgs = append(msgs, r.nastyMessage())
-			}
-		}
+	runOne := func(i int, msgs []proto.Message, preserve bool) {
 		var opts []encoder.ValidatorOption
 		if preserve {
 			opts = append(opts, encoder.ValidatorWithPreserveInvalidValues())
@@ -281,8 +273,79 @@ func c10(args []string) {
 			}
 		}
 		emit("CASE", fmt.Sprintf("(%s, %s, %s)", coqBool(preserve), coqIMesgs(msgs), coqList(results)))
-		if i < 2 {
+		if i >= 0 && i < 2 {
 			emit("SAMPLE", fmt.Sprintf("preserve=%v %d messages -> %v", preserve, len(msgs), results))
+		}
+	}
+	// boundary corpus (deterministic, always first): every size limit from both sides
+	for _, msgs := range boundaryMessages() {
+		stat("boundary_messages", 1)
+		runOne(-1, msgs, false)
+		runOne(-1, msgs, true)
+	}
+	for i := 0; i < n; i++ {
+		preserve := r.chance(1, 3)
+		var msgs []proto.Message
+		if r.chance(1, 3) {
+			msgs = r.devScenario()
+		} else {
+			for k := 0; k < 1+r.intn(3); k++ {
+				msgs = append(msgs, r.nastyMessage())
+			}
+		}
+		runOne(i, msgs, preserve)
+	}
+	// sequence scoping: developer data ids and field descriptions of one sequence do not carry over into the next, whether the
+	// sequences come from successive Encode calls or from one stream encoder
+	for i := 0; i < 6+n/50; i++ {
+		idx, num := byte(r.intn(3)), byte(r.intn(4))
+		setup, dfs := r.devSetup(idx, int(num)+1)
+		d := dfs[num]
+		mkRec := func() proto.Message {
+			rec := proto.Message{Num: mesgnum.Record}
+			hr := factory.CreateField(mesgnum.Record, fieldnum.RecordHeartRate)
+			hr.Value = proto.Uint8(uint8(60 + r.intn(100)))
+			rec.Fields = append(rec.Fields, hr)
+			rec.DeveloperFields = append(rec.DeveloperFields, proto.DeveloperField{Num: d.num, DeveloperDataIndex: idx,
+				Value: r.valueFor(d.base, profile.ProfileType(d.base&basetype.BaseTypeNumMask), false, 0, 3)})
+			return rec
+		}
+		A := append(append([]proto.Message{fileIdMesg(r)}, setup...), mkRec())
+		ownSetup := r.chance(1, 3)
+		B := []proto.Message{fileIdMesg(r)}
+		if ownSetup {
+			B = append(B, setup...)
+		}
+		B = append(B, mkRec())
+		for _, stream := range []bool{false, true} {
+			w, _ := newDest(3, -1, 0, nil)
+			var errA, errB error
+			if !stream {
+				enc := encoder.New(w, encoder.WithProtocolVersion(proto.V2))
+				errA = enc.Encode(&proto.FIT{Messages: cloneMessages(A)})
+				errB = enc.Encode(&proto.FIT{Messages: cloneMessages(B)})
+			} else {
+				senc, err := encoder.NewStream(w, encoder.WithProtocolVersion(proto.V2))
+				if err != nil {
+					continue
+				}
+				write := func(ms []proto.Message) error {
+					ms = cloneMessages(ms)
+					for k := range ms {
+						if err := senc.WriteMessage(&ms[k]); err != nil {
+							return err
+						}
+					}
+					return senc.SequenceCompleted()
+				}
+				errA = write(A)
+				errB = write(B)
+			}
+			stat("oracle_sequence_scoping", 1)
+			if errA != nil || (errB == nil) != ownSetup {
+				emitJSON("FAIL", "", map[string]any{"kind": "developer-data-scope", "stream": stream, "second_sequence_has_own_descriptions": ownSetup,
+					"first_err": fmt.Sprint(errA), "second_err": fmt.Sprint(errB), "first": coqIMesgs(A), "second": coqIMesgs(B)})
+			}
 		}
 	}
 	// protocol 1.0 through the encoder: developer fields and 64-bit base types are rejected, nothing else
@@ -371,4 +434,83 @@ func onlyFloat64DevDiffer(a, b *proto.Message) bool {
 		}
 	}
 	return true
+}
+
+// boundaryMessages: values of 254 / 255 / 256 bytes of every kind, 254 / 255 / 256 fields and developer fields.
+func boundaryMessages() [][]proto.Message {
+	loadFactory()
+	var out [][]proto.Message
+	mk := func(num typedef.MesgNum, f proto.Field) { out = append(out, []proto.Message{{Num: num, Fields: []proto.Field{f}}}) }
+	rep := func(ch byte, n int) string { return string(bytes.Repeat([]byte{ch}, n)) }
+	for _, n := range []int{252, 253, 254, 255, 256, 257} {
+		f := factory.CreateField(mesgnum.FileId, fieldnum.FileIdProductName)
+		f.Value = proto.String(rep('a', n))
+		mk(mesgnum.FileId, f)
+		f = factory.CreateField(mesgnum.FileId, fieldnum.FileIdProductName)
+		f.Value = proto.String(rep('a', n-3) + "\u00e9") // multi-byte rune at the end
+		mk(mesgnum.FileId, f)
+		g := factory.CreateField(mesgnum.FieldDescription, fieldnum.FieldDescriptionFieldName)
+		g.Value = proto.SliceString([]string{rep('x', n/2), rep('y', n-n/2-2)}) // two terminators: size n
+		mk(mesgnum.FieldDescription, g)
+		u := factory.CreateField(0xFF00, 7)
+		u.BaseType, u.Type, u.Array = basetype.Byte, profile.Byte, true
+		u.Value = proto.SliceUint8(bytes.Repeat([]byte{7}, n))
+		mk(0xFF00, u)
+		us := factory.CreateField(0xFF00, 8)
+		us.BaseType, us.Type = basetype.String, profile.String
+		us.Value = proto.String(rep('z', n))
+		mk(0xFF00, us)
+	}
+	for _, n := range []int{126, 127, 128} {
+		u := factory.CreateField(0xFF00, 9)
+		u.BaseType, u.Type, u.Array = basetype.Uint16, profile.Uint16, true
+		u.Value = proto.SliceUint16(make([]uint16, n))
+		mk(0xFF00, u)
+	}
+	for _, n := range []int{63, 64} {
+		u := factory.CreateField(0xFF00, 10)
+		u.BaseType, u.Type, u.Array = basetype.Uint32, profile.Uint32, true
+		u.Value = proto.SliceUint32(make([]uint32, n))
+		mk(0xFF00, u)
+	}
+	for _, n := range []int{31, 32} {
+		u := factory.CreateField(0xFF00, 11)
+		u.BaseType, u.Type, u.Array = basetype.Uint64, profile.Uint64, true
+		u.Value = proto.SliceUint64(make([]uint64, n))
+		mk(0xFF00, u)
+	}
+	for _, n := range []int{254, 255, 256} {
+		m := proto.Message{Num: 0xFF01}
+		for j := 0; j < n; j++ {
+			f := factory.CreateField(0xFF01, byte(j%256))
+			f.BaseType, f.Type = basetype.Uint8, profile.Uint8
+			f.Value = proto.Uint8(uint8(j % 200))
+			m.Fields = append(m.Fields, f)
+		}
+		out = append(out, []proto.Message{m})
+		// developer fields: id + description + n developer fields on one record
+		dd := proto.Message{Num: mesgnum.DeveloperDataId}
+		f := factory.CreateField(mesgnum.DeveloperDataId, fieldnum.DeveloperDataIdDeveloperDataIndex)
+		f.Value = proto.Uint8(0)
+		dd.Fields = append(dd.Fields, f)
+		fd := proto.Message{Num: mesgnum.FieldDescription}
+		add := func(num byte, v proto.Value) {
+			f := factory.CreateField(mesgnum.FieldDescription, num)
+			f.Value = v
+			fd.Fields = append(fd.Fields, f)
+		}
+		add(fieldnum.FieldDescriptionDeveloperDataIndex, proto.Uint8(0))
+		add(fieldnum.FieldDescriptionFieldDefinitionNumber, proto.Uint8(0))
+		add(fieldnum.FieldDescriptionFitBaseTypeId, proto.Uint8(uint8(basetype.Uint8)))
+		add(fieldnum.FieldDescriptionFieldName, proto.SliceString([]string{"dev"}))
+		rec := proto.Message{Num: mesgnum.Record}
+		hr := factory.CreateField(mesgnum.Record, fieldnum.RecordHeartRate)
+		hr.Value = proto.Uint8(60)
+		rec.Fields = append(rec.Fields, hr)
+		for j := 0; j < n; j++ {
+			rec.DeveloperFields = append(rec.DeveloperFields, proto.DeveloperField{Num: 0, DeveloperDataIndex: 0, Value: proto.Uint8(uint8(j % 200))})
+		}
+		out = append(out, []proto.Message{dd, fd, rec})
+	}
+	return out
 }
